@@ -19,7 +19,7 @@ RULE = ("call specs = (function, parameter variant, dtype, backend) over 40 publ
         "snapshotted after every call; non-trivial = distinct (spec, predecessor spec) pairs compared with a fresh process")
 BUDGET = {'quick': 170, 'thorough': 1500}
 MODES = {'quick': [('J', 8), ('I', 8)], 'thorough': [('J', 8), ('I', 8)]}
-FLOORS = {'quick': {'repeat_identical': 150, 'fresh_process_identical': 60, 'reordered_other_threads_identical': 250, 'functions_in_sequences': 1,
+FLOORS = {'quick': {'repeat_identical': 150, 'fresh_process_identical': 60, 'reordered_other_threads_identical': 220, 'functions_in_sequences': 1,
                     'state_tables_unchanged': 250, 'compiled_mode_sequences': 5},
           'thorough': {'repeat_identical': 2500, 'fresh_process_identical': 1200}}
 ASSUMPTIONS = ['bump() is excluded: it draws from the unseeded global RNG by design',
@@ -139,7 +139,12 @@ def build(spec, seed):
         if dk:
             import dask.array as da
             from vlib import gen
-            data = da.from_array(arr, chunks=gen.random_chunks((H, W), rng))
+            ch = ((H,), (W,))
+            for _t in range(30):
+                c2 = gen.random_chunks((H, W), rng)
+                if 2 <= len(c2[0]) * len(c2[1]) <= 6:          # C11 is not about chunking; many tiny blocks only cost time
+                    ch = c2; break
+            data = da.from_array(arr, chunks=ch)
         rasters.append(xr.DataArray(data, dims=['y', 'x'], coords={'y': ys, 'x': xs}, attrs={'res': (cell, cell)}, name='r%d' % i))
     aux = dict(cell=cell, start=(float(ys[0]), float(xs[0])), goal=(float(ys[-1]), float(xs[-1])), vx=float(xs[W // 2]), vx2=float(xs[1]), vy=float(ys[H // 2]))
     return (lambda: f(v, rasters, aux)), rasters
@@ -235,16 +240,24 @@ def _sub(specs, seed, threads, numba_threads, timeout=900):
 def check(rec, kind, idx, rng, tier):
     specs_all = all_specs()
     J = rec.mode == 'J'
-    L = int(rng.integers(8, 12)) if J else int(rng.integers(20, 31))
+    L = (int(rng.integers(6, 9)) if tier == 'quick' else int(rng.integers(10, 16))) if J else int(rng.integers(20, 31))
     # choose functions, then >= 3 variants of some of them so that parameter-differing calls of one function interleave
     names = sorted(cat())
     if J:
         names = [n for n in names if n not in ('viewshed',)] if rng.random() < 0.7 else names      # viewshed JIT costs ~19 s per process
     chosen = []
+    heavy = {'proximity', 'allocation', 'direction', 'viewshed', 'polygonize'}     # re-JIT per call / long compiles
+    heavy_left = 2 if (J and tier == 'quick') else (6 if J else 10 ** 6)
+    if J and tier == 'quick':
+        names = [n for n in names if n != 'viewshed']
     while len(chosen) < L:
         nm = str(rng.choice(names))
         cands = [s for s in specs_all if s.startswith(nm + '|')]
         k = min(len(cands), int(rng.integers(1, 4)))
+        if nm in heavy:
+            if heavy_left <= 0:
+                continue
+            k = min(k, heavy_left); heavy_left -= k
         for s in rng.choice(cands, size=k, replace=False):
             chosen.append(str(s))
     chosen = chosen[:L]
@@ -297,7 +310,7 @@ def check(rec, kind, idx, rng, tier):
     for s in set(exc):
         rec.rej('raises.' + s.split('|')[0])
     # (2) fresh interpreter per call (sample)
-    nfresh = 3 if J else 10
+    nfresh = (2 if tier == 'quick' else 5) if J else 10
     sample = [order[i] for i in rng.permutation(len(order))[:nfresh]]
     for s in sample:
         rec.evaluation()
